@@ -462,10 +462,19 @@ func vwAddrScript(addr string) []byte {
 	return s
 }
 
+// vwFill: n bytes b (bytes.Repeat is not executed by the engine).
+func vwFill(b byte, n int) []byte {
+	out := make([]byte, n)
+	for i := range out {
+		out[i] = b
+	}
+	return out
+}
+
 // vwCoinTxid: id of the i-th coin the wallet spends (fixed; the adapters never look at it).
 func vwCoinTxid(i int) chainhash.Hash {
 	var h chainhash.Hash
-	copy(h[:], bytes.Repeat([]byte{byte(0xc0 + i)}, 32))
+	copy(h[:], vwFill(byte(0xc0+i), 32))
 	return h
 }
 
@@ -483,9 +492,9 @@ func vwSetup(anyKeys bool) (*Client, *vwWorld) {
 		w.hash = zzverif.Bytes("hash", 32)
 		zzverif.Assume(!bytes.Equal(w.maker, w.taker)) // equal keys: C02's subject
 	} else {
-		w.maker = append([]byte{0x02}, bytes.Repeat([]byte{0x11}, 32)...)
-		w.taker = append([]byte{0x03}, bytes.Repeat([]byte{0x22}, 32)...)
-		w.hash = bytes.Repeat([]byte{0x33}, 32)
+		w.maker = append([]byte{0x02}, vwFill(0x11, 32)...)
+		w.taker = append([]byte{0x03}, vwFill(0x22, 32)...)
+		w.hash = vwFill(0x33, 32)
 	}
 	w.params = &swap.OpeningParams{
 		TakerPubkey:      hex.EncodeToString(w.taker),
@@ -594,7 +603,7 @@ func (k *vwKit) FundPsbt(ctx context.Context, in *walletrpc.FundPsbtRequest, opt
 		zzverif.Assume(v >= 0)
 		zzverif.Assume(v <= vwMaxSats)
 		k.inValues = append(k.inValues, v)
-		pkt.Inputs = append(pkt.Inputs, psbt.PInput{WitnessUtxo: wire.NewTxOut(v, bytes.Repeat([]byte{0x51}, 23))})
+		pkt.Inputs = append(pkt.Inputs, psbt.PInput{WitnessUtxo: wire.NewTxOut(v, vwFill(0x51, 23))})
 	}
 	pkt.Outputs = make([]psbt.POutput, n)
 	blob := []byte("psbt:funded") // symbolic side: a token
@@ -705,7 +714,7 @@ type vwSigner struct {
 func vwNewSigner(w *vwWorld, name string, key byte) *vwSigner {
 	s := &vwSigner{w: w, name: name}
 	if !zzverif.Symbolic() {
-		s.priv, _ = btcec.PrivKeyFromBytes(bytes.Repeat([]byte{key}, 32))
+		s.priv, _ = btcec.PrivKeyFromBytes(vwFill(key, 32))
 	}
 	return s
 }
@@ -852,7 +861,7 @@ func vwOpeningTx(w *vwWorld) (string, int, *wire.MsgTx) {
 func vwSpend(kind int, anyKeys bool) {
 	cl, w := vwSetup(anyKeys)
 	openHex, k, openTx := vwOpeningTx(w)
-	preimage := bytes.Repeat([]byte{0x44}, 32)
+	preimage := vwFill(0x44, 32)
 	if anyKeys {
 		preimage = zzverif.Bytes("preimage", 32)
 	}
